@@ -3,6 +3,7 @@
 # certain rights in this software.
 import numpy
 
+from jaqalpaq.error import JaqalError
 from jaqalpaq.core.algorithm.walkers import TraceSerializer
 from jaqalpaq.core.result import ProbabilisticSubcircuit, ReadoutSubcircuit
 from jaqalpaq.emulator.backend import IndependentSubcircuitsBackend
@@ -73,6 +74,11 @@ class UnitarySerializedEmulator(IndependentSubcircuitsBackend):
                     # The position in the fundamental register, which differs
                     # from val.alias_index when val is taken from a map alias.
                     qind.append(val.resolve_qubit()[1])
+
+            if len(set(qind)) != len(qind):
+                raise JaqalError(
+                    f"Gate {gate.name} acts on the same qubit more than once"
+                )
 
             # This is the dense submatrix
             dsub = gatedef.ideal_unitary(*argv)
